@@ -151,7 +151,7 @@ func (s *c20Scenario) twin() *c20Scenario {
 	t.Name = s.Name + "/twin"
 	t.Calls = nil
 	for _, c := range s.Calls {
-		if c.Op == "rmupload" || c.Op == "rmspill" {
+		if c.Op == "rmupload" || c.Op == "rmupload1" || c.Op == "rmspill" {
 			continue
 		}
 		t.Calls = append(t.Calls, c)
@@ -237,6 +237,7 @@ type c20Opts struct {
 	ResVia    string
 	ReadRes   bool
 	RmUpload  bool // delete the upload temp files before ProcessLogging/Close
+	RmUpload1 bool // delete only the FIRST upload temp file: the remaining ones must still be removed by Close
 	RmSpill   bool // delete the spill file before Close
 	NoRespond bool
 }
@@ -277,6 +278,9 @@ func c20Build(name, kind string, conf c20Conf, o c20Opts) *c20Scenario {
 	}
 	if o.RmUpload {
 		add(c20Call{Op: "rmupload"})
+	}
+	if o.RmUpload1 {
+		add(c20Call{Op: "rmupload1"})
 	}
 	if !o.NoRespond {
 		add(c20Call{Op: "rhdr", A: "Content-Type", B: "text/plain"})
@@ -436,6 +440,8 @@ func c20Scenarios(thorough bool, r *rand.Rand) []*c20Scenario {
 	o := mp2
 	o.RmUpload = true
 	add(real(c20Build("real/upload-deleted/multipart", "real-multipart", own(c20Conf{Keep: "Off"}), o), "tx.close.removeupload", "multipart.copy"))
+	o = c20Opts{CT: c20MultipartCT, Body: c20Multipart([]int{40, 90, 20}, true, 0), Chunk: 150, RmUpload1: true}
+	add(real(c20Build("real/first-upload-deleted/multipart3", "real-multipart", own(c20Conf{Keep: "Off"}), o), "tx.close.removeupload", "multipart.copy"))
 	o = spill
 	o.RmSpill = true
 	add(real(c20Build("real/spill-deleted/spill", "real-spill", own(c20Conf{MemLimit: 64}), o), "bodybuffer.remove", "bodybuffer.remove"))
